@@ -212,7 +212,7 @@ def chain(view, body_param=2):
 
 
 def _strip(s):
-    return re.sub(r'^\(AsMut::as_mut\(box_packet\)\)@\w+\.0\.', 'packet.', s)
+    return re.sub(r'^\(AsMut::as_mut\(\w+\)\)@\w+\.0\.', 'packet.', s)
 
 
 def _reaches(view, all_defs, d, use):
